@@ -166,6 +166,12 @@ func (s *subprocessor) beforeMessageBuiltStage(ctx context.Context) (
 		// have already been verified up top.
 		// todo(rdr): there is an issue where unit in 0 is not guaranteed to be non-nil
 		unit := unitsReceived[0]
+		for _, received := range unitsReceived {
+			if received != nil {
+				unit = received
+				break
+			}
+		}
 		localUnit := Unit{
 			CommitteeID: unit.CommitteeID,
 			Publisher:   unit.Publisher,
